@@ -30,6 +30,8 @@ def _roundtrip(ctx, label, unm, mar, data, pad_ok=False):
         ctx.check("%s: marshall(unmarshall(b))[%d] == b[%d]" % (label, i, i), b2[i] == ctx.oracle(data[i]))
     d2 = unm(b2)
     ctx.check("%s: unmarshall(marshall(d)) == d" % label, same(d2, ctx.oracle_struct(d)))
+    b3 = mar(d)
+    ctx.check("%s: building the same dictionary again gives the same bytes" % label, same(list(b3), ctx.oracle_struct(list(b2))))
     return d, b2
 
 
